@@ -85,6 +85,9 @@ class Contract:
     self.entry_ghost = list(g("entry_ghost", []))
     # methods of opaque references (user-supplied objects): (cls, method) -> result type (arbitrary value of it)
     self.ref_methods = dict(g("ref_methods", {}))
+    # after a call to one of these callees (by function name) the rest of the body is abstracted: the path ends as a
+    # normal return of an unmodelled value (float tails of the statistical tests); listed as an assumption
+    self.stop_after = list(g("stop_after", []))
     self.pure_fn = g("pure_fn", None)
     # functional contracts: the result as an expression of the parameters (used where no fresh symbol may be
     # introduced: inside comprehensions over symbolic sequences and quantifier bodies)
